@@ -20,6 +20,9 @@ If the independent reader (g4reader) cannot read a text the compiler accepted, t
 is unknown: reported as a failure of kind "reader_rejects" (it is a C10 matter, but it must not
 go unnoticed here).
 
+  6. in a second engine that was asked for each of these predicates before the load, a query of name/arity after the load calls
+     the loaded function (detected at its first line by a trace function; the body is not run); API names are skipped.
+
 Scenario JSON: {"text": <source text>, "origin": <free text>}.
 Inputs: a hand-written boundary corpus, parametrised shape families (long conjunctions, deep
 if-then-else / disjunction / negation nesting, wide heads, deep terms, long lists, big numerals,
@@ -320,7 +323,75 @@ def check(text):
                     ps = list(inspect.signature(f).parameters.values())
                     if len(ps) != expected[k] or any(p.kind != p.POSITIONAL_OR_KEYWORD or p.default is not p.empty for p in ps):
                         problems.append("%s takes parameters %s, expected %d plain positional ones" % (k, ps, expected[k]))
+                # 6. ... and loading makes them callable, also in an engine that was asked for them BEFORE the program was loaded
+                problems.extend(_callable_after_load(code, expected))
     return {"accepted": True, "problems": problems, "ndefs": len(defs or ()), "code_len": len(code)}
+
+
+class _Reached(BaseException):
+    pass
+
+
+def _reaches(yp, name, arity, fcode):
+    """does yp.query(name, <arity fresh variables>) call the function whose code object is fcode?  The call is aborted at its
+    first line (the predicate body never runs)."""
+    import sys as _sys
+    hit = []
+
+    def tracer(frame, event, arg):
+        if event == 'call' and frame.f_code is fcode:
+            hit.append(1)
+            raise _Reached()
+        return None
+    q = yp.query(name, [yp.variable() for _ in range(arity)])
+    old = _sys.gettrace()
+    _sys.settrace(tracer)
+    try:
+        next(q)
+    except _Reached:
+        pass
+    except StopIteration:
+        pass
+    except Exception:       # noqa: B902   (an unknown predicate may raise or fail: both are "not reached")
+        pass
+    finally:
+        _sys.settrace(old)
+        try:
+            q.close()
+        except BaseException:      # noqa: B902
+            pass
+    return bool(hit)
+
+
+def _callable_after_load(code, expected):
+    from yldprolog.engine import YP
+    out = []
+    keys = sorted(expected)[:8]
+    yp = YP()
+    names = {}
+    for k in keys:
+        name = k[:-(len(str(expected[k])) + 1)]
+        if name in yp.eval_blacklist:
+            continue
+        names[k] = name
+        # ask for the predicate before it exists (whatever the answer)
+        q = yp.query(name, [yp.variable() for _ in range(expected[k])])
+        try:
+            next(q)
+        except BaseException as e:      # noqa: B902
+            if isinstance(e, (KeyboardInterrupt, SystemExit)):
+                raise
+        finally:
+            q.close()
+    yp.load_script_from_string(code)
+    for k, name in names.items():
+        f = yp.eval_context.get(k)
+        if f is None or not hasattr(f, '__code__'):
+            continue
+        if not _reaches(yp, name, expected[k], f.__code__):
+            out.append("after loading, a query of %s/%d does not call the loaded definition (the engine had been asked for it before "
+                       "the load)" % (name, expected[k]))
+    return out
 
 
 def _eval(item):
